@@ -387,6 +387,40 @@ PLANS.update({
 })
 
 
+def A_cli(name, maxfiles):
+    def run(ctx):
+        h = ctx.harness()
+        stage = os.path.join(ctx.scratch, 'v5stage')
+        cli = os.path.join(ctx.scratch, 'bin-json-patch')
+        p = subprocess.run(['go', 'build', '-o', cli, './cmd/json-patch'], cwd=stage, env=ctx.env, capture_output=True, text=True)
+        if p.returncode != 0:
+            raise Broken('cannot build v5/cmd/json-patch: ' + p.stderr[-2000:])
+        tmp = os.path.join(ctx.scratch, 'clitmp')
+        os.makedirs(tmp, exist_ok=True)
+        run_A(ctx, 'Cli', name, {'MaxFiles': maxfiles, 'EmitOn': 'TRUE'},
+              invariants=('NoPartialOutput', 'OutputIsFold', 'FailsCleanly', 'OrderWitness'), spec='CSpec',
+              extra_opt='cli=%s,tmp=%s' % (cli, tmp))
+    return run
+
+
+PLANS.update({
+    'C20': {
+        'quick': [A_cli('cli3', 3)],
+        'thorough': [A_cli('cli4', 4)],
+        'rule': 'TLC explores the state machine of the command (parse flags, load and decode each file, read stdin, apply in order, print or '
+                'fatal) for every list of up to 3 (quick) / 4 (thorough) -p arguments over 9 kinds of file (four patches of which two do not '
+                'commute and one fails in its second operation, the empty patch, a non-patch, malformed JSON, a missing path, a directory) x 3 '
+                'documents on stdin, checks NoPartialOutput / OutputIsFold / FailsCleanly on the specification; every scenario is '
+                'materialised and run against the binary built from v5/cmd/json-patch: exit status, empty stdout and non-empty stderr on '
+                'failure, stdout equal to the specification document and byte-equal to the in-process fold of the library on success',
+        'exhaustive': True,
+        'assumptions': ['patch application inside the command is Patch6902 under the default options', 'files are regular files in a scratch directory'],
+        'required_labels': {'quick': ['Cli_exit0_files3', 'Cli_exit1_files3', 'Cli_exit0_files0', 'Cli_exit1_files1'],
+                            'thorough': ['Cli_exit0_files4', 'Cli_exit1_files4', 'Cli_exit0_files0']},
+    },
+})
+
+
 def replay_file(ctx, plan, path):
     """Re-run one recorded case (bin/check <id> --replay <file>)."""
     v = json.load(open(path))
